@@ -438,6 +438,9 @@ fn dfa_from(v: &Value) -> TableDfa {
 }
 
 pub fn replay(case: &Value) -> Result<String, String> {
+    if let Some(r) = super::seqread::replay(case) {
+        return r;
+    }
     let kvs = kvs_from(&case["kvs"]);
     match case["kind"].as_str().unwrap() {
         "gapsv" => super::c10::run_gaps_versions(case["n"].as_u64().unwrap() as usize, case["variant"].as_u64().unwrap() as usize, case["depth"].as_u64().unwrap() as usize, 2).map(|n| format!("{} searches agree", n)),
@@ -665,5 +668,7 @@ pub fn plan(tier: Tier) -> Plan {
         }
     }
     p.must_be_nonzero = vec!["shipped_searches".into(), "regex_searches".into(), "composition_searches".into()];
+    p.rule.push_str(super::seqread::RULE);
+    super::seqread::add_units(&mut p, super::seqread::Class::Search, if tier.thorough() { 5 } else { 4 });
     p
 }
